@@ -6,6 +6,8 @@ V = os.path.dirname(os.path.dirname(os.path.abspath(__file__)))
 TB = ("TLC 1.8.0 and the CommunityModules Json/IOUtils modules; the Go toolchain, net/http(+httptest), grpc-go, protobuf-go "
       "(dynamicpb/protodesc) as used by the harness; spec/*.tla as the statement of the property")
 
+RPCNOTE = "Direct drive through Mux.ServeHTTP (httptest); HTTP/2 framing for gRPC emulated with ProtoMajor=2 and recorder trailers; WebSocket and real grpc-go clients are covered by the socket drivers where built. " + TB
+
 CHECKS = {
  "C01": dict(engine="Router", level="model_checking", design="3.1, 6/C01",
    technique="TLA+ spec (Template.tla/Router.tla) model-checked with TLC; TLC-generated rule sets and requests replayed through the real Mux; recorded trace validated by TLC against RouterTrace.tla (formula Sound)",
@@ -27,6 +29,27 @@ CHECKS = {
    technique="TLA+ Framing spec (property-level Expected per ReadNext call vs read-loop mechanism at one step per r.Read) checked by TLC over every chunk schedule; TLC-generated streams read back through the real stream codecs under every composition of the wire into reads; every call validated by TLC against FramingTrace.tla",
    text="TLC explores every reader schedule (chunk sizes, (n, io.EOF) vs separate EOF, over-reads carried to the next call, every truncation) for all frame sequences in scope and checks the read loops return exactly the schedule-independent expectation (4 negative configs must fail); the same streams are then written with the real WriteNext and read with the real ReadNext of CodecProto, CodecJSON and the HttpBody chunker from a scripted reader for every composition of short wires (sampled for long ones), and TLC judges each call: result class, message bytes, exact remainder, limit, no crash.",
    note="Streams of <=3 frames over sizes 0..4 exhaustively plus boundary streams (127/128, limit-1/limit/limit+1, 1..10-byte prefixes to 2^64-1); the scripted reader is trusted. " + TB),
+
+ "C05": dict(engine="Rpc", level="model_checking", design="3.6, 6/C05",
+   technique="TLA+ Rpc spec (per-RPC state machine, Apply/View) model-checked by TLC; status x message-shape x details x error-point product and TLC-generated handler scripts executed on every protocol through the real Mux; every recorded RPC validated by TLC against RpcTrace.tla (formula StatusFidelity, AlwaysResponds)",
+   text="TLC checks the per-RPC state machine over all handler scripts in scope; each case (codes 0..18,100,2^31-1; messages over {plain,%,control,2-/3-byte rune,long}; 0-2 details; before/after replies; HTTP JSON/protobuf, Twirp, gRPC, gRPC-web binary and text) runs against the real Mux and TLC compares the client-visible status with Rpc!View: grpc-status / exactly decodable grpc-message / details, HTTP status table and google.rpc.Status body, Twirp names; a crash or missing response is a violation.",
+   note=RPCNOTE),
+ "C06": dict(engine="Rpc", level="model_checking", design="3.5-3.6, 6/C06",
+   technique="TLA+ Rpc spec + Framing spec; message sequences x fragmenting read schedules x truncation points x transport x codec x compression executed through the real Mux; each RPC validated by TLC against RpcTrace.tla (RecvSeq, ReplySeq, SendResult)",
+   text="For client-, server- and bidi-streaming calls on HTTP (JSON, varint-protobuf), gRPC, gRPC-web binary/text, with and without gzip: the handler must receive exactly the client's sequence (each message proto.Equal to what was sent) followed by a clean end, a body cut inside a message yields the complete messages then an error, and the client must receive exactly the handler's sequence; request bodies are fed through a scripted reader with seeded chunk schedules incl. (n, io.EOF). The codec-level exhaustive schedule exploration is C17's.",
+   note=RPCNOTE),
+ "C08": dict(engine="Rpc", level="model_checking", design="3.6, 6/C08",
+   technique="TLA+ Rpc spec with receive/send limits in Apply; limit x {L-1,L,L+1,50L} x codec x compression x protocol cases with exact wire sizes executed on the real Mux; validated by TLC against RpcTrace.tla (NeverOverLimit, RecvSeq/ReplySeq under limits)",
+   text="Messages are built to exact wire sizes around each configured limit; TLC requires that no handler observes a message larger than maxReceiveMessageSize (after decompression), that over-limit requests fail with an error, and that nothing within the receive and send limits is refused, with maxSend != maxRecv in both directions. Varint prefixes up to 2^64-1 are C17's.",
+   note="A gzip frame of a tiny message is larger than the message, so gzip cases use limits >= 200. Over-limit replies may be refused or delivered (the property only forbids refusing replies within the limit). " + RPCNOTE),
+ "C14": dict(engine="Rpc", level="model_checking", design="3.6, 6/C14",
+   technique="TLA+ Rpc spec (header phase, pending/flushed metadata, reserved-key filter); request/response metadata cases incl. -bin values, reserved names and header-phase orders executed on the real Mux; validated by TLC against RpcTrace.tla (MetadataIn, MetadataOutHeader/Trailer, HeaderPhase, ReservedUnforgeable)",
+   text="Request headers (mixed case, multi-valued, -bin in padded and unpadded base64 over byte strings of every length mod 3) must reach the handler lower-cased, in order, byte-exact, with protocol keys absent; SetHeader/SendHeader/SetTrailer in every order relative to the first Send must reach the client on the protocols that carry them (headers: HTTP, gRPC, gRPC-web; trailers: gRPC, gRPC-web), late SetHeader must be refused, and reserved keys set by the handler must not change content-type, status, message or details.",
+   note=RPCNOTE),
+ "C18": dict(engine="Rpc", level="model_checking", design="3.6, 6/C18",
+   technique="TLA+ Rpc spec (stats event sequence in Apply); the same RPC executed under every subset of {unary interceptor, stream interceptor, stats handler} on the real Mux; recording interceptors / stats.Handler are the trace source; validated by TLC against RpcTrace.tla (InterceptOnce, StatsWellFormed) plus 2-safety comparison OptionsTransparent",
+   text="Each RPC (every shape, HTTP/gRPC/gRPC-web, message sizes from zero bytes up, ok / error before / error after replies) is run under all 8 option subsets: the matching interceptor must be called exactly once with the full method name, streaming flags and the handler's error; stats events must match tag,in-header,begin,(payloads|out-header)*,out-trailer,end with one payload event per message and End carrying the handler's status; and the client-visible outcome must be identical across the subsets.",
+   note="InPayload for a message without wire payload on HTTP is unspecified. " + RPCNOTE),
 }
 
 NOT_YET = {}
